@@ -942,8 +942,17 @@ func ropePredLit(op string, r symStr, lit string) (value, bool) {
 	}
 	switch op {
 	case "str.contains":
+		anySigned := false
+		for _, p := range r.parts {
+			if p.atom != nil && p.atom.signed {
+				anySigned = true
+			}
+		}
 		for i := 0; i < len(lit); i++ {
-			if isDigitByte(lit[i]) {
+			if lit[i] >= '0' && lit[i] <= '9' {
+				return nil, false
+			}
+			if lit[i] == '-' && anySigned {
 				return nil, false
 			}
 		}
